@@ -5,7 +5,7 @@ import os, json, re, time
 from . import core
 from .core import OUT, SPEC, log, ToolError
 
-ALL_FAMILIES = ["single", "positional", "bulk", "fill", "extend", "access", "iter", "drain", "ctor", "faults"]
+ALL_FAMILIES = ["single", "positional", "bulk", "fill", "extend", "access", "iter", "drain", "ctor", "faults", "provided"]
 
 
 def tla_set(xs):
@@ -140,6 +140,8 @@ def ev_step(e, h=0):
     elif op.startswith('v_'):
         s['v'] = 0
         del s['h']
+        if op in ('v_nth', 'v_nth_back'):
+            s['i'] = e['i']
     if e.get('fk', 'none') != 'none':
         s['fault'] = {"k": e['fk'], "n": e['fn']}
     return s
@@ -167,6 +169,8 @@ def tags_of(raw):
             t.add('fault_user')
         if e['op'] == 'v_forget':
             t.add('forget')
+        if e['op'] in ('v_nth', 'v_nth_back') or (e['op'] == 'v_rest' and e.get('acc')):
+            t.add('provided')       # a provided Iterator method (the crate may override it)
         if e['unw'] and e.get('fk', 'none') == 'none':
             t.add('panic_doc')
     return t
